@@ -26,6 +26,7 @@ def run(ck):
         executor(ck)
     if ck.has("stream"):
         stream(ck)
+    _shared(ck)
 
 
 def executor(ck):
@@ -85,8 +86,7 @@ def executor(ck):
             if body is cl and trs:
                 ck.verdict(all(cl.dominates(c.bb, t.bb) for t in trs) and val == 0, "2", "T3-must-precede", cl, "clear-flag<drain", "the 'notified' flag is cleared before the queue is drained: a runnable enqueued after the clear pings again, one enqueued before is seen by the drain", "the 'notified' flag is cleared after (or inside) the drain: a waker that enqueues between the last empty try_recv and the clear finds the flag set, skips the ping, and its task is never polled again (lost wake)", site=cl.where(c.bb))
             elif body is pe:
-                # cleared in the parent before the inner process_events call is fine as well
-                ck.verdict(inner and pe.dominates(c.bb, inner[0].bb) and val == 0, "2", "T3-must-precede", pe, "clear-flag<drain", "the flag is cleared before the drain starts", "the 'notified' flag is cleared after the drain (lost wake)", site=pe.where(c.bb))
+                ck.violation("2", "T3-must-precede", pe, "clear-flag-inside-ping-callback", "the 'notified' flag is cleared outside the ping source's callback, i.e. not between the read of the eventfd and the drain of the queue: a waker that enqueues, sets the flag and pings between the clear and the eventfd read has its ping consumed while the flag stays set, and every later wake-up is suppressed for good", site=pe.where(c.bb))
     common.import_results(ck, __import__("props.C02", fromlist=["x"]), "4", "Executor", "2")
 
     # ---- clause 3: exactly-once result ---------------------------------------------------------------------------
@@ -263,3 +263,7 @@ def stream(ck):
             continue
         pg = [cs for cs in b.calls() if cs.name == "ping" and not b.is_cleanup(cs.bb)]
         ck.verdict(bool(pg) and T.t2_all_exits(b, [0], [p.bb for p in pg]) is None, "6", "T8-sibling-agreement", b, "waker-pings", "the waker pings the source on every path", "%s does not ping: a wake through this entry point is lost" % q, site=b.where())
+
+
+def _shared(ck):
+    common.ping_infra(ck, "7")
